@@ -128,6 +128,12 @@ func randomCfg(g *rand.Rand, seed int64, family string) SchedCfg {
 	case "snapapply":
 		b.Async = true
 		s.Strict = false
+	case "xferremoved":
+		b.Async = false
+	case "snapinactive":
+		b.CheckQuorum = true
+	case "snapterm":
+		b.Async = true
 	case "selfack":
 		b.Async = true
 	case "readhb":
@@ -413,7 +419,7 @@ func (x *gen) next(phase string) string {
 	return "tickall"
 }
 
-var phases = []string{"healthy", "chaos", "partition", "crashy", "confchange", "snapshots", "transfer", "reads", "limits", "stall", "dsnap", "fig8snap", "dupvote", "snaplead", "rereads", "snapapply", "aba", "xferjoint", "soloread", "readhb", "selfack"}
+var phases = []string{"healthy", "chaos", "partition", "crashy", "confchange", "snapshots", "transfer", "reads", "limits", "stall", "dsnap", "fig8snap", "dupvote", "snaplead", "rereads", "snapapply", "aba", "xferjoint", "soloread", "readhb", "selfack", "oddcalls", "snapinactive", "snapterm", "xferremoved"}
 
 func (x *gen) isLeader(n *Node) bool {
 	if !n.alive || n.rn == nil {
@@ -732,6 +738,14 @@ func runRandom(s SchedCfg, nops int, tr *traceWriter) *Cluster {
 			x.directedReadHeartbeat()
 		case "selfack":
 			x.directedSelfAck()
+		case "oddcalls":
+			x.directedOddCalls()
+		case "snapinactive":
+			x.directedSnapInactive()
+		case "snapterm":
+			x.directedSnapTerm()
+		case "xferremoved":
+			x.directedXferRemoved()
 		default:
 			for i, l := 0, 15+x.g.Intn(50); i < l && c.ops < nops; i++ {
 				c.exec(x.next(phase))
